@@ -152,4 +152,55 @@ example : PrecOK (.index (.ident (B "a")) none (.ident (B "offset"))) ∧
     NF (.index (.ident (B "a")) none (.ident (B "offset"))) ∧
     startsPosKw (yield (.ident (B "offset"))) = true := by decide
 
+/-! Task E, stage 1: `CASE … END` and `IF(…)` are compound atoms of the fragment -/
+
+example : exprRun (B "CASE a WHEN 1 THEN -x ELSE b END + 1") =
+    "OK (bin + (case (ident 61) (when (int 31) (unary - (ident 78))) (ident 62)) (int 31)) 434153452061205748454e2031205448454e202d7820454c5345206220454e44202b2031" := by
+  decide +kernel
+example : exprRun (B "CASE WHEN a THEN b WHEN c THEN d END[1].f") =
+    "OK (sel (index (case - (when (ident 61) (ident 62)) (when (ident 63) (ident 64)) -) (expr (int 31))) 66) 43415345205748454e2061205448454e2062205748454e2063205448454e206420454e445b315d2e66" := by
+  decide +kernel
+example : exprRun (B "IF(a, b OR c, CASE WHEN 1 THEN 2 END) IS NULL") =
+    "OK (isnull false (if (ident 61) (bin OR (ident 62) (ident 63)) (case - (when (int 31) (int 32)) -))) 494628612c2062204f5220632c2043415345205748454e2031205448454e203220454e4429204953204e554c4c" := by
+  decide +kernel
+example : exprRun (B "IF(a, b)") = "ERR" := by decide +kernel
+example : exprRun (B "CASE a THEN 1 END") = "ERR" := by decide +kernel
+example : exprRun (B "CASE WHEN a THEN b") = "ERR" := by decide +kernel
+/-- the trees are table-grouped normal forms at level 0 (atoms): (2), (3) and (5) apply to them; an OR inside the
+delimited parts needs no parentheses -/
+example : PrecOK (.caseE (.some (.ident (B "a"))) (.int none (B "1")) (.bin .or (.ident (B "x")) (.ident (B "y"))) .nil .none) ∧
+    NF (.caseE (.some (.ident (B "a"))) (.int none (B "1")) (.bin .or (.ident (B "x")) (.ident (B "y"))) .nil .none) ∧
+    level (.caseE (.some (.ident (B "a"))) (.int none (B "1")) (.bin .or (.ident (B "x")) (.ident (B "y"))) .nil .none) = 0 ∧
+    level (.ifE (.ident (B "a")) (.ident (B "b")) (.ident (B "c"))) = 0 := by decide
+
+/-! Task E, stage 2: the array literal `[e, …]` (without ARRAY / element type) is a compound atom; `[` behind the end
+of an operand stays a subscript -/
+
+example : exprRun (B "[1, a + 2, [x]][OFFSET(0)] IS NOT NULL") =
+    "OK (isnull true (index (array (int 31) (bin + (ident 61) (int 32)) (array (ident 78))) (OFFSET (int 30)))) 5b312c2061202b20322c205b785d5d5b4f46465345542830295d204953204e4f54204e554c4c" := by
+  decide +kernel
+example : exprRun (B "[] || [NOT a, b OR c]") =
+    "OK (bin || (array) (array (unary NOT (ident 61)) (bin OR (ident 62) (ident 63)))) 5b5d207c7c205b4e4f5420612c2062204f5220635d" := by
+  decide +kernel
+example : exprRun (B "[1,]") = "ERR" := by decide +kernel
+/-- a position word followed by `(` at the head of an ARRAY LITERAL is a call: outside the fragment -/
+example : exprRun (B "[OFFSET(1)]") = "OUTSIDE" := by decide +kernel
+example : exprRun (B "ARRAY[1]") = "OUTSIDE" := by decide +kernel
+
+/-! Task E, stage 3: `CAST(e AS path)` with a NAMED type; a scalar type name (`SimpleType`), `ARRAY<…>` / `STRUCT<…>` and
+`SAFE_CAST` stay outside -/
+
+example : exprRun (B "CAST(a + 1 AS my.Proto).f IS NULL") =
+    "OK (isnull false (sel (cast (bin + (ident 61) (int 31)) (named 6d79 50726f746f)) 66)) 434153542861202b2031204153206d792e6050726f746f60292e66204953204e554c4c" := by
+  decide +kernel
+example : exprRun (B "cast(CAST(x AS `p q`.Date.T) as Money) * 2") =
+    "OK (bin * (cast (cast (ident 78) (named 702071 44617465 54)) (named 4d6f6e6579)) (int 32)) 43415354284341535428782041532060702071602e446174652e5429204153204d6f6e657929202a2032" := by
+  decide +kernel
+/-- `int64.x` is a named type (a scalar type name followed by `.`), `INT64` alone is a `SimpleType`: outside -/
+example : exprRun (B "CAST(a AS int64.x)") = "OK (cast (ident 61) (named 696e743634 78)) 43415354286120415320696e7436342e7829" := by
+  decide +kernel
+example : exprRun (B "CAST(a AS INT64)") = "OUTSIDE" := by decide +kernel
+example : exprRun (B "CAST(a AS b.)") = "ERR" := by decide +kernel
+example : exprRun (B "SAFE_CAST(a AS T)") = "OUTSIDE" := by decide +kernel
+
 end MF.Props.C07
